@@ -18,14 +18,14 @@ def sh(cmd, cwd=None, timeout=3600):
     return r.returncode, r.stdout
 
 
-def confirm(pid, outdir, wt):
+def confirm(pid, outdir, wt, tag=''):
     for n in sorted(os.listdir(outdir)):
         d = os.path.join(outdir, n)
         patch = os.path.join(d, 'patch.diff')
         demo = os.path.join(d, 'demo.rs')
         if not (os.path.isdir(d) and os.path.exists(patch) and os.path.exists(demo)):
             continue
-        sid = '%s-%s' % (pid, n)
+        sid = '%s-%s%s' % (pid, tag, n)
         log = []
         sh('git checkout -- . && git clean -fdq tests', cwd=wt)
         rc, out = sh('git apply %s' % patch, cwd=wt)
@@ -86,9 +86,36 @@ def detect(sid, props=None):
     json.dump(meta, open(os.path.join(dst, 'meta.json'), 'w'), indent=1)
 
 
+def table():
+    """markdown table of all stored seeded defects and which check detects them"""
+    rows = []
+    for sid in sorted(os.listdir(SEEDED)):
+        mp = os.path.join(SEEDED, sid, 'meta.json')
+        if not os.path.exists(mp):
+            continue
+        m = json.load(open(mp))
+        det = m.get('detection', {})
+        cells = []
+        for p, r in sorted(det.items()):
+            why = ''
+            for ln in r.get('lines', []):
+                if ln.strip().startswith(p + '|') or ln.strip().startswith('C'):
+                    why = ln.strip().split('(run')[0].strip()
+                    break
+            cells.append('%s: %s' % (p, ('**detected** - ' + why[:110]) if r.get('detected') else 'missed (exit %s)' % r.get('exit')))
+        summ = (m.get('summary') or '').replace('|', '/').replace('\n', ' ')
+        rows.append('| %s | %s | %s |' % (sid, summ[:150] + ('...' if len(summ) > 150 else ''), '; '.join(cells) or 'not run'))
+    print('| seeded defect | change (as described by its author) | quick check of the property it breaks |')
+    print('|---|---|---|')
+    print('\n'.join(rows))
+
+
 if __name__ == '__main__':
+    if sys.argv[1] == 'table':
+        table()
+        sys.exit(0)
     if sys.argv[1] == 'confirm':
-        confirm(sys.argv[2], sys.argv[3], sys.argv[4])
+        confirm(sys.argv[2], sys.argv[3], sys.argv[4], sys.argv[5] if len(sys.argv) > 5 else '')
     elif sys.argv[1] == 'detect':
         detect(sys.argv[2], sys.argv[3:] or None)
     elif sys.argv[1] == 'detect-all':
